@@ -15,7 +15,7 @@ EXTENDS Integers, Sequences, FiniteSets, TLC, Json, XJudge
 CONSTANTS NReq,      \* number of requests of a scenario
           Conns,     \* downstream connections (1..k)
           MaxSteps,  \* length of the enumerated schedules
-          Defects    \* {} = intended design | "HijackIdFromFrame" | "NoDelete" | "ArrivalOrder" | "RecycleWhileReferenced"
+          Defects    \* {} = intended design | "HijackIdFromFrame" | "NoDelete" | "ArrivalOrder" | "RecycleWhileReferenced" | "BodyAliasesReadBuffer"
 
 Reqs == 1..NReq
 Fresh(r) == 1000 + r          \* the client's own id space; upstream ids count 1,2,3.. per upstream connection
@@ -34,8 +34,9 @@ VARIABLES
   stale,    \* token of a response whose handler still holds a reference to the per-request objects of a request that has
             \* meanwhile ended by timeout (0 = none)
   ghosted, closed,
+  reenc,    \* the scenario runs on a route that makes the proxy re-encode requests and responses (headers added both ways)
   hist
-vars == <<creq, uans, udup, tmo, uid, uep, ptab, alive, frameid, nextU, epoch, bad, stale, ghosted, closed, hist>>
+vars == <<creq, uans, udup, tmo, uid, uep, ptab, alive, frameid, nextU, epoch, bad, stale, ghosted, closed, reenc, hist>>
 
 Unsent == [st |-> "unsent", conn |-> 0, dsid |-> 0, short |-> FALSE, closedSince |-> FALSE]
 
@@ -43,19 +44,21 @@ Init == /\ creq = [r \in Reqs |-> Unsent] /\ uans = {} /\ udup = {} /\ tmo = {}
         /\ uid = [r \in Reqs |-> 0] /\ uep = [r \in Reqs |-> 0]
         /\ ptab = <<>> /\ alive = {} /\ frameid = [r \in Reqs |-> 0]
         /\ nextU = 0 /\ epoch = 0 /\ bad = {} /\ stale = 0 /\ ghosted = FALSE /\ closed = FALSE /\ hist = <<>>
+        /\ reenc \in BOOLEAN
 
 OpenOn(c, id) == { r \in Reqs : creq[r].st = "open" /\ creq[r].conn = c /\ creq[r].dsid = id }
 DoneOn(c, id) == { r \in Reqs : creq[r].st = "replied" /\ creq[r].conn = c /\ creq[r].dsid = id }
 
 (* the client receives a frame: judge it, mark the request replied *)
-ClientRecv(cq, c, id, ok, tok, prod) ==
+ClientRecv2(cq, c, id, ok, htok, btok, prod) ==
   LET o == { r \in Reqs : cq[r].st = "open" /\ cq[r].conn = c /\ cq[r].dsid = id }
       d == { r \in Reqs : cq[r].st = "replied" /\ cq[r].conn = c /\ cq[r].dsid = id }
       r == CHOOSE x \in o : TRUE
       q == [tok |-> r, short |-> cq[r].short, unstable |-> FALSE, closedSince |-> cq[r].closedSince]
-  IN [v  |-> IF o = {} THEN Verdict(FALSE, d # {}, [tok |-> 0], ok, tok, tok, prod)
-             ELSE Verdict(TRUE, FALSE, q, ok, tok, tok, prod),
+  IN [v  |-> IF o = {} THEN Verdict(FALSE, d # {}, [tok |-> 0], ok, htok, btok, prod)
+             ELSE Verdict(TRUE, FALSE, q, ok, htok, btok, prod),
       cq |-> IF o = {} THEN cq ELSE [cq EXCEPT ![r].st = "replied"]]
+ClientRecv(cq, c, id, ok, tok, prod) == ClientRecv2(cq, c, id, ok, tok, tok, prod)
 
 (* ---- client sends request r on connection c; mode = 0: fresh id, k > 0: the id the proxy uses upstream for request k *)
 Send(r, c, mode, short) ==
@@ -80,16 +83,21 @@ Send(r, c, mode, short) ==
   /\ UNCHANGED <<uans, udup, tmo, epoch, ghosted, closed>>
 
 (* ---- a response frame with upstream id u carrying the token of request t reaches the proxy *)
-Response(u, t) ==
-  IF u \notin DOMAIN ptab THEN UNCHANGED <<creq, ptab, alive, bad>>
+(* the proxy-side state a response touches, as a record, so that two responses can be applied in one step *)
+Cur == [creq |-> creq, ptab |-> ptab, alive |-> alive, bad |-> bad]
+Apply(S) == creq' = S.creq /\ ptab' = S.ptab /\ alive' = S.alive /\ bad' = S.bad
+Resp1(S, u, ht, bt) ==
+  IF u \notin DOMAIN S.ptab THEN S
   ELSE LET w == IF "ArrivalOrder" \in Defects
-                THEN ptab[CHOOSE x \in DOMAIN ptab : \A y \in DOMAIN ptab : x <= y]
-                ELSE ptab[u]
-           res == ClientRecv(creq, creq[w].conn, creq[w].dsid, TRUE, t, TRUE)
-       IN /\ ptab' = IF "NoDelete" \in Defects THEN ptab ELSE [x \in DOMAIN ptab \ {u} |-> ptab[x]]
-          /\ IF w \in alive \/ "NoDelete" \in Defects
-             THEN creq' = res.cq /\ bad' = bad \cup res.v /\ alive' = alive \ {w}
-             ELSE UNCHANGED <<creq, bad, alive>>
+                THEN S.ptab[CHOOSE x \in DOMAIN S.ptab : \A y \in DOMAIN S.ptab : x <= y]
+                ELSE S.ptab[u]
+           res == ClientRecv2(S.creq, S.creq[w].conn, S.creq[w].dsid, TRUE, ht, bt, TRUE)
+           deliver == w \in S.alive \/ "NoDelete" \in Defects
+       IN [ptab  |-> IF "NoDelete" \in Defects THEN S.ptab ELSE [x \in DOMAIN S.ptab \ {u} |-> S.ptab[x]],
+           creq  |-> IF deliver THEN res.cq ELSE S.creq,
+           bad   |-> IF deliver THEN S.bad \cup res.v ELSE S.bad,
+           alive |-> IF deliver THEN S.alive \ {w} ELSE S.alive]
+Response(u, t) == Apply(Resp1(Cur, u, t, t))
 
 UpAnswer(r) ==
   /\ uid[r] # 0 /\ uep[r] = epoch /\ r \notin uans
@@ -105,6 +113,20 @@ UpDup(r) ==
   /\ udup' = udup \cup {r}
   /\ hist' = Append(hist, [op |-> "dup", r |-> r])
   /\ UNCHANGED <<uans, tmo, uid, uep, frameid, nextU, epoch, stale, ghosted, closed>>
+
+(* ---- decode A / read B / encode A: the answer to a is decoded from the upstream connection's read buffer and handed to
+   a's worker; before that worker encodes it for the downstream, the same upstream connection reads (and the proxy
+   delivers) the answer to b. When the proxy re-encodes responses from their fields (reenc: the route adds headers, a
+   filter touched the message) whatever the decoded frame still shares with the read buffer is b's by then. *)
+Inter(a, b) ==
+  /\ a # b
+  /\ \A r \in {a, b} : /\ uid[r] # 0 /\ uep[r] = epoch /\ r \notin uans /\ r \in alive
+                         /\ creq[r].st = "open" /\ ~creq[r].short
+  /\ LET abody == IF reenc /\ "BodyAliasesReadBuffer" \in Defects THEN b ELSE a
+     IN Apply(Resp1(Resp1(Cur, uid[b], b, b), uid[a], a, abody))
+  /\ uans' = uans \cup {a, b}
+  /\ hist' = Append(hist, [op |-> "inter", r |-> a, b |-> b])
+  /\ UNCHANGED <<udup, tmo, uid, uep, frameid, nextU, epoch, stale, ghosted, closed>>
 
 Ghost ==
   /\ ~ghosted /\ nextU > 0 /\ ghosted' = TRUE
@@ -172,14 +194,15 @@ UpClose ==
   /\ hist' = Append(hist, [op |-> "close"])
   /\ UNCHANGED <<uans, udup, tmo, uid, uep, frameid, stale, ghosted>>
 
-Next == /\ Len(hist) < MaxSteps
+Next == /\ Len(hist) < MaxSteps /\ reenc' = reenc
         /\ \/ \E r \in Reqs, c \in Conns, m \in 0..NReq, s \in BOOLEAN : Send(r, c, m, s)
            \/ \E r \in Reqs : UpAnswer(r) \/ UpDup(r) \/ Timeout(r) \/ Race(r) \/ RaceGone(r)
+           \/ \E a, b \in Reqs : Inter(a, b)
            \/ Ghost \/ UpClose
 Spec == Init /\ [][Next]_vars
 
 (* ---- C02 ---- *)
 NoMiscorrelation == bad = {}
 
-EmitCase == (Len(hist) = MaxSteps) => PrintT(<<"CASE", ToJson([steps |-> hist])>>)
+EmitCase == (Len(hist) = MaxSteps) => PrintT(<<"CASE", ToJson([steps |-> hist, reenc |-> reenc])>>)
 ====
